@@ -21,8 +21,19 @@ UNIT = {
 }
 
 
+def _literal_array(n):
+    while isinstance(n, dict) and n.get('k') in ('Ref', 'Cast', 'Un'):
+        n = n['e']
+    return isinstance(n, dict) and n.get('k') in ('Array', 'Arr') or (isinstance(n, dict) and n.get('k') == 'Call' and False)
+
+
 def sig(t):
     k, u, plural = UNIT[t.method]
+    if plural and k == 'obs':
+        # observe_elements(&[x]) with a literal array absorbs a fixed, visible number of items: not a loop
+        args = t.ev.node.get('a', []) if getattr(t, 'ev', None) is not None else []
+        if args and _literal_array(args[-1]):
+            plural = False
     looped = plural or ('loop' in t.shape)
     return (k, u, looped)
 
